@@ -24,6 +24,7 @@ HDR = ("From Coq Require Import List NArith ZArith Bool.\n"
 
 XSTREAM_SHARD = 999999   # shard key of the known-finding probe (its font indices are >= 1000000)
 XSTREAM_BASE = 1000000
+LIGLIG_SHARD = 1999999
 KNOWN_XSTREAM = "kern_cross_stream_resets_attachments"
 KNOWN_VF2 = "pairpos_second_glyph_by_value_not_format"
 
@@ -113,10 +114,19 @@ def correspondence(chk, binp, nfonts, shard_fonts=12):
     # the harness is fast; run it in a few chunks so that fonts/cases stay associated with a shard
     shards = [("cases", first, min(shard_fonts, nfonts - first)) for first in range(0, nfonts, shard_fonts)]
     shards.append(("xstream", XSTREAM_SHARD, 6))   # known-finding probe: Marks fonts + cross-stream kern subtable
+    # ligatures built from ligatures with marks on every component: outside the model's GSUB domain, geometric predicate only
+    shards.append(("liglig", LIGLIG_SHARD, max(6, nfonts // 4)))
     for cmd, first, n in shards:
         fonts, cases, geos, st, an = run_cases(binp, seed, first, n, cmd)
         if cmd == "xstream":
             st = {"xstream." + k: v for k, v in st.items()}
+        if cmd == "liglig":
+            st = {"liglig." + k: v for k, v in st.items()}
+            all_geo += geos
+            anomalies += an
+            for k, v in st.items():
+                stats[k] = stats.get(k, 0) + v
+            continue
         all_geo += geos
         anomalies += an
         for k, v in st.items():
